@@ -482,7 +482,8 @@ def cdecl(t, inner=""):
         if t["va"]:
             ps += ", ..."
         return cdecl(t["ret"], "%s(%s)" % (inner, ps))
-    base = SPELL[k] if k in SPELL else "%s %s" % (k, t["tag"])
+    # enum types through their typedef T_<tag>: `enum eu: 1` in a generic association trips cproc's parser (see enum_probe)
+    base = SPELL[k] if k in SPELL else "T_" + t["tag"] if k == "enum" else "%s %s" % (k, t["tag"])
     return (q + " " if q else "") + base + (" " + inner if inner else "")
 
 
@@ -502,7 +503,7 @@ class TypeNames:
 
 
 def enum_prelude(fixed=True):
-    return "".join(ENUM_DEF[e] + "\n" for e in sorted(ENUM_DEF) if fixed or e not in FIXED_ENUMS)
+    return "".join("%s\ntypedef enum %s T_%s;\n" % (ENUM_DEF[e], e, e) for e in sorted(ENUM_DEF) if fixed or e not in FIXED_ENUMS)
 
 
 def run_single(objdir, targ, src):
@@ -666,7 +667,7 @@ def compat_audit(ctx, pre, batch, lines, rejects, stats):
         expect_err.add(base + n)
     for comp in ("gcc", "clang"):
         fixed = comp != "gcc"
-        p2 = pre if fixed else pre.replace(ENUM_DEF["efs"] + "\n", "").replace(ENUM_DEF["efuc"] + "\n", "")
+        p2 = pre if fixed else pre.replace(enum_prelude(True), enum_prelude(False))
         npre = p2.count("\n")
         path = ctx.path("compat_audit_%s.c" % comp)
         with open(path, "w") as f:
@@ -713,8 +714,8 @@ def compat_audit(ctx, pre, batch, lines, rejects, stats):
     # C11-mode confirmation of the array-qualifier rejects
     arrq = [i for i in sorted(expect_err) if ([b[4] for b in batch] + [rj[2] for rj in rejects])[i]["arrq"]]
     if arrq:
-        p11 = "".join(ENUM_DEF[e] + "\n" for e in ("eu", "eu2", "es", "es2")) + pre[pre.index(STRUCT_DEFS):]
-        if not any(("enum " + e) in p11[p11.index(STRUCT_DEFS):] for e in ("eul", "el", "efs", "efuc")):
+        p11 = "".join("%s\ntypedef enum %s T_%s;\n" % (ENUM_DEF[e], e, e) for e in ("eu", "eu2", "es", "es2")) + pre[pre.index(STRUCT_DEFS):]
+        if not any(("T_" + e + " ") in p11[p11.index(STRUCT_DEFS):] or ("T_" + e + ";") in p11[p11.index(STRUCT_DEFS):] for e in ("eul", "eul2", "el", "efs", "efuc")):
             path = ctx.path("compat_audit_c11.c")
             with open(path, "w") as f:
                 f.write(p11 + "\n".join(body[i] for i in arrq) + "\n")
@@ -728,6 +729,181 @@ def compat_audit(ctx, pre, batch, lines, rejects, stats):
             stats["audit_gcc_c11_array_qualifier_lines"] = len(arrq)
             if miss:
                 raise vlib.MachineryError("SPEC-AUDIT: gcc -std=c11 -pedantic-errors accepts `%s` (spec: constraint violation)" % body[miss[0]])
+
+
+# ---- part 3: randomly nested expressions (-simulate) -----------------------------------------------------------
+def nested_prelude(table, fixed=True):
+    L = [enum_prelude(fixed), STRUCT_DEFS]
+    mem = " ".join("%s%s;" % (cdecl(m["t"], m["n"]), (":%d" % m["w"]) if m["w"] else "") for m in table["members"])
+    L.append("struct SS { %s };" % mem)
+    bf = []
+    for o in sorted(table["objs"], key=lambda o: o["n"]):
+        if o["n"].startswith("sa."):
+            bf.append("%s:%d;" % (cdecl(o["t"], o["n"][3:]), o["w"]))
+        elif o["td"]:
+            # array object declared through a typedef of the unqualified array type, qualifiers on the declaration
+            el = o["t"]["of"]
+            q = " ".join(x for x in ("const", "volatile") if x in el["q"])
+            L.append("typedef %s;" % cdecl(dict(o["t"], of=dict(el, q=[])), "TD_" + o["n"]))
+            L.append("extern %s TD_%s %s;" % (q, o["n"], o["n"]))
+        else:
+            L.append("extern %s;" % cdecl(o["t"], o["n"]))
+    L.append("struct BFS { %s };" % " ".join(bf))
+    L.append("extern struct BFS sa;")
+    for c in table["casts"] + table["aligns"]:
+        L.append("typedef %s;" % cdecl(c["t"], c["n"]))
+    return "\n".join(L) + "\n"
+
+
+class NProbe:
+    __slots__ = ("pid", "kind", "line", "want", "alt", "altrej", "case", "qenum")
+
+    def __init__(self, pid, kind, line, want, alt, altrej, case, qenum=False):
+        self.pid, self.kind, self.line, self.want, self.alt, self.altrej, self.case = pid, kind, line, want, alt, altrej, case
+        self.qenum = qenum
+
+    def cproc_line(self, g2=""):
+        return self.line.replace("@V@", "v%d" % self.pid)
+
+    def audit_line(self, g2=""):
+        if self.kind == "ptrinit":
+            return self.cproc_line()
+        m = re.match(r"int @V@ = (.*);$", self.line.replace(", T_efs:5, T_efuc:6", "") if g2 == "nofixed" else self.line)
+        return "_Static_assert((%s) == %d, \"v%d\");" % (m.group(1), self.want, self.pid)
+
+
+def nested_probes(table, cases):
+    g1 = ", ".join("%s:%d" % (SPELL[n], i + 1) for i, n in enumerate(table["g1"]))
+    g2 = ", ".join("T_%s:%d" % (e, i + 1) for i, e in enumerate(table["g2"]))
+    out = []
+    for c in cases:
+        e = c["e"]
+        for p in c["probes"]:
+            k = p["k"]
+            ty = p["ty"]
+            if k == "compat":
+                line = "int @V@ = __builtin_types_compatible_p(__typeof__(%s), %s);" % (e, cdecl(ty))
+            elif k == "generic":
+                line = "int @V@ = _Generic((%s), %s: 1, default: 0);" % (e, cdecl(ty))
+            elif k == "ptrinit":
+                line = "__typeof__(%s) *@V@ = (%s)0;" % (e, cdecl({"k": "ptr", "q": [], "to": ty}))
+            elif k == "sizeof":
+                line = "int @V@ = sizeof(%s) == sizeof(%s);" % (e, cdecl(ty))
+            elif k == "g1":
+                line = "int @V@ = _Generic((%s), %s, default: 0);" % (e, g1)
+            elif k == "g2":
+                line = "int @V@ = _Generic((%s), %s, default: 0);" % (e, g2)
+            elif k == "twin":
+                line = "int @V@ = __builtin_types_compatible_p(__typeof__(%s), %s);" % (e, cdecl(ty))
+            else:
+                raise vlib.MachineryError("unknown probe kind " + k)
+            want = p["want"] if k in ("g1", "g2") else int(p["want"])
+            alt = p["alt"] if k in ("g1", "g2") else int(p["alt"])
+            if k == "ptrinit":
+                want = 0      # the emitted pointer is null
+            out.append(NProbe(len(out), k, line, want, alt, p["altrej"], c, p.get("qenum", False)))
+    return out
+
+
+def nested_judge(ctx, probes, got, rejected, targ, stats):
+    bycase = collections.OrderedDict()
+    for p in probes:
+        bycase.setdefault(id(p.case), []).append(p)
+    for plist in bycase.values():
+        c = plist[0].case
+        ctx.count(targ + "|" + c["e"], nontrivial=c["d"] >= 2)
+        stats["depth%d" % c["d"]] += 1
+        def ok_want(p):
+            return p.pid not in rejected and (p.kind == "ptrinit" or got[p.pid] == p.want)
+
+        def ok_alt(p):      # the model of the shipped code predicts this outcome
+            if p.altrej:
+                return p.pid in rejected
+            return p.pid not in rejected and (p.kind == "ptrinit" or got[p.pid] == p.alt)
+        bad = [(p, ("rejected: " + rejected[p.pid]) if p.pid in rejected else "= %s, required %s" % (got.get(p.pid), p.want)) for p in plist if not ok_want(p)]
+        if not bad:
+            continue
+        ok_elsewhere = all(ok_alt(p) for p in plist)
+        if c["devs"] and ok_elsewhere:
+            ctx.violation("dev:nested:%s" % "+".join(sorted(c["devs"])), "type of `%s` is %s, C11 requires %s" % (c["e"], c["mod"], c["exp"]),
+                          {"target": targ, "expr": c["e"], "exp": c["exp"], "mod": c["mod"], "devs": c["devs"]})
+        else:
+            notalt = [p for p in plist if not ok_alt(p)]
+            p, msg = bad[0]
+            if c["devs"] and notalt:
+                p = notalt[0]
+                msg = ("rejected: " + rejected[p.pid]) if p.pid in rejected else "= %s, required %s, model of the shipped code predicts %s" % (
+                    got.get(p.pid), p.want, "rejection" if p.altrej else p.alt)
+            ctx.violation("nested:%s:%s" % (p.kind, c["exp"]), "`%s` (C11 type %s) on %s: probe `%s` %s" % (c["e"], c["exp"], targ, p.cproc_line(), msg),
+                          {"target": targ, "expr": c["e"], "exp": c["exp"], "mod": c["mod"], "devs": c["devs"], "probe": p.cproc_line(), "observed": msg})
+
+
+def nested(ctx, objdir):
+    num, depth = (150, 16) if ctx.quick else (3500, 16)
+    r = ctx.tlc_must_pass("CTypesExprGen", "MC_CTypes_nested.cfg", workers=4 if ctx.quick else 8, simulate=num, depth=depth, timeout=2400, heap="3g")
+    cases = [json.loads(v) for v in r.vcases]
+    table = [c for c in cases if c["form"] == "nested_table"]
+    if not table:
+        raise vlib.MachineryError("nested: no table VCASE")
+    table = table[0]
+    seen, uniq = set(), []
+    for c in cases:
+        if c["form"] != "nested":
+            continue
+        k = (c["targ"], c["e"])
+        if k not in seen:
+            seen.add(k)
+            uniq.append(c)
+    stats = collections.Counter()
+    stats["generated"] = len(cases) - 1
+    stats["distinct"] = len(uniq)
+    pre, pre_nf = nested_prelude(table, True), nested_prelude(table, False)
+    bytarg = collections.defaultdict(list)
+    for c in uniq:
+        bytarg[c["targ"]].append(c)
+    items = []
+    for targ, cl in sorted(bytarg.items()):
+        for ch in chunks(cl, 400):
+            pr = nested_probes(table, ch)
+            items.append(("cproc", targ, pr))
+            items.append(("clang", targ, pr))
+            if targ == "x86_64-sysv":
+                # gcc exceptions: (1) ibf, see audit_exception; (2) an expression that still designates a bit-field has gcc's
+                # own type `int:5` in _Generic (clang and C11: the declared type); (3) gcc 12 has no fixed-underlying-type
+                # enums, so a g2 selection of their association cannot be asked
+                items.append(("gcc", targ, [p for p in pr if not p.case["ibf"] and not p.case["w"]
+                                            and not (p.kind == "g2" and p.want > 4)]))
+
+    def work(it):
+        kind, targ, pr = it
+        if kind == "cproc":
+            return it, run_cproc_tu(objdir, targ, pre, pr)
+        return it, audit_tu(kind, targ, pre if kind == "clang" else pre_nf, pr, ctx.scratch, "n%s_%s_%d" % (kind, targ, id(pr)),
+                            "" if kind == "clang" else "nofixed")
+    bad = []
+    for (kind, targ, pr), res in vlib.pmap(work, items, workers=12):
+        if kind == "cproc":
+            got, rejected = res
+            nested_judge(ctx, pr, got, rejected, targ, stats)
+            stats["cproc_probes"] += len(pr)
+        else:
+            stats["audit_%s_probes" % kind] += len(pr)
+            # qualified enum vs identically qualified compatible integer type: gcc 12 / clang 14 defect (see compat_audit)
+            stats["audit_%s_exceptions_qualified_enum" % kind] += sum(1 for p, msg in res if p.qenum)
+            bad += [(kind, targ, p, msg) for p, msg in res if not p.qenum]
+    if bad and os.environ.get("C05_DEBUG"):
+        with open(os.environ["C05_DEBUG"] + ".nested", "w") as f:
+            for kind, targ, p, msg in bad:
+                f.write("%s\t%s\t%s\t%s\t%s\n" % (kind, targ, p.case["exp"], p.audit_line(), msg))
+    if bad:
+        kind, targ, p, msg = bad[0]
+        raise vlib.MachineryError("SPEC-AUDIT (nested): %d probes where a reference compiler disagrees with CTypes; first: %s %s `%s` (spec type %s): %s" % (
+            len(bad), kind, targ, p.audit_line(), p.case["exp"], msg))
+    ctx.cov.setdefault("stats", {})["nested"] = dict(stats)
+    ctx.validated(len(uniq))
+    deep = [c for c in uniq if c["d"] >= 3]
+    if deep:
+        ctx.sample({"nested expression": deep[0]["e"], "required type": deep[0]["exp"], "target": deep[0]["targ"]})
 
 
 def private_build(ctx, flavour):
@@ -754,3 +930,4 @@ def run(ctx):
     objdir = private_build(ctx, "plain")
     scalar(ctx, objdir)
     compat(ctx, objdir)
+    nested(ctx, objdir)
